@@ -16,6 +16,12 @@ Property sentence → theorem
 * "bindings made during one call never influence a later call of a plain function or method"
                                                                                     → `plain_calls_independent`, `nonGeneric_calls_independent`, `instance_history_independent`
 * "... nor calls on another instance"                                               → `no_cross_instance`
+* "within one call ... across parameters, nested positions and the return value" when the BODY of the call makes other checked
+  calls before it returns (same instance, other instances, plain functions, any depth): the bindings of a call are its own
+                                                                                    → `runTree_out`, `nested_calls_do_not_disturb`, `nested_calls_do_not_disturb_alone`,
+                                                                                      `tree_journal_alone` (every call of an arbitrary finite call tree ends as the same call alone),
+                                                                                      `C07_tree_partial` / `C07_forest_partial` (every call of every tree meets the stateless specification);
+                                                                                      `runTree_leaf` / `runForest_leaves`: the tree model extends the history model
 * the whole property as one statement: `C07_full` (refuted: `C07_full_false`), `C07_partial` under `Guard` (= no mismatch at a direct Optional member)
 * former regions, now theorems / positive witnesses: `methodLevelTypeVar_per_call`, `nonGeneric_keeps_bindings_params`, `nonGeneric_keeps_bindings_result`
 * open region, witness: `mismatch_in_optional_witness`
@@ -1613,5 +1619,476 @@ example : runHistory envX [⟨0, 0, .genericInstance [0] [], false, [(T, .inst 2
                            ⟨0, 1, .genericInstance [0] [(0, .cls 3)], false, [(T, .inst 3), retNone]⟩,
                            ⟨0, 1, .genericInstance [0] [(0, .cls 3)], false, [(T, .inst 2), retNone]⟩] Stores.empty
     = [.ok, .ok, .pedTVMismatch] := by decide
+
+/-! ## Nested calls: the bindings of a call are its own, whatever calls its body makes -/
+
+theorem Tree.ind {P : Tree → Prop} {PL : List Tree → Prop}
+    (node : ∀ c n body, PL body → P (.node c n body)) (nil : PL []) (cons : ∀ t ts, P t → PL ts → PL (t :: ts)) : ∀ t, P t :=
+  fun t => Tree.rec (motive_1 := P) (motive_2 := PL) node nil cons t
+
+theorem Tree.indL {P : Tree → Prop} {PL : List Tree → Prop}
+    (node : ∀ c n body, PL body → P (.node c n body)) (nil : PL []) (cons : ∀ t ts, P t → PL ts → PL (t :: ts)) : ∀ ts, PL ts := by
+  intro ts
+  induction ts with
+  | nil => exact nil
+  | cons t ts ih => exact cons t ts (Tree.ind node nil cons t) ih
+
+theorem runFrom_append_ok (env : Env) : ∀ (xs ys : List (A × Val)) (m : TVMap), (runFrom env xs m).1 = .ok →
+    runFrom env (xs ++ ys) m = runFrom env ys (runFrom env xs m).2 := by
+  intro xs
+  induction xs with
+  | nil => intros; rfl
+  | cons x xs ih =>
+    obtain ⟨a, v⟩ := x
+    intro ys m h
+    simp only [List.cons_append, runFrom] at h ⊢
+    cases hf : failure (isInst env a v m).1 with
+    | some o => rw [hf] at h; exact absurd h (failure_ne_ok _ o hf)
+    | none => rw [hf] at h; exact ih ys _ h
+
+theorem runFrom_append_fail (env : Env) : ∀ (xs ys : List (A × Val)) (m : TVMap), (runFrom env xs m).1 ≠ .ok →
+    runFrom env (xs ++ ys) m = runFrom env xs m := by
+  intro xs
+  induction xs with
+  | nil => intro ys m h; exact absurd rfl h
+  | cons x xs ih =>
+    obtain ⟨a, v⟩ := x
+    intro ys m h
+    simp only [List.cons_append, runFrom] at h ⊢
+    cases hf : failure (isInst env a v m).1 with
+    | some o => rfl
+    | none => rw [hf] at h; exact ih ys _ h
+
+/-- the outcome of a call that reaches its checks: all its checks run with the ONE dict the first access yields -/
+theorem runCall_out_of_not_scan (env : Env) (c : Call) (s : Stores) (h : isScanFail c = false) :
+    (runCall env c s).1 = (runFrom env c.checks (accessMap c.kind [] (s.attrs.get (attrKey c)))).1 := by
+  unfold runCall
+  unfold isScanFail at h
+  split
+  · rename_i h1 h2; rw [h1, h2] at h; simp at h
+  · simp only [perCallFreshMap, ↓reduceIte]; rw [runChecks_fst]
+
+/-- **the outcome of a call with an arbitrary body**: it is the outcome of the same call without a body — made in the stores
+    the call found when its first check ran (before the body if it has a parameter, after the body if it has none) -/
+theorem runTree_out (env : Env) (c : Call) (n : Nat) (body : List Tree) (s : Stores) :
+    (runTree env (.node c n body) s).out =
+      (runCall env c (if (c.checks.take n).isEmpty then (runBody env body s).st else s)).1 := by
+  unfold runTree
+  simp only [resolveOncePerCall, perCallFreshMap, ↓reduceIte]
+  by_cases hp : (c.checks.take n).isEmpty = true
+  · simp only [hp, ↓reduceIte]
+  · simp only [hp, Bool.false_eq_true, ↓reduceIte]
+    by_cases hs : isScanFail c = true
+    · simp only [hs, ↓reduceIte]
+    · have hs' : isScanFail c = false := by simpa using hs
+      simp only [hs', Bool.false_eq_true, ↓reduceIte]
+      rw [runCall_out_of_not_scan env c s hs']
+      have hsplit : c.checks = c.checks.take n ++ c.checks.drop n := (List.take_append_drop n c.checks).symm
+      generalize hm : accessMap c.kind [] (s.attrs.get (attrKey c)) = m0
+      cases hr : (runFrom env (c.checks.take n) m0).1 with
+      | ok =>
+        simp only
+        conv => rhs; rw [hsplit]
+        rw [runFrom_append_ok env _ _ _ hr]
+      | pedTypeCheck =>
+        simp only
+        conv => rhs; rw [hsplit]
+        rw [runFrom_append_fail env _ _ _ (by rw [hr]; decide), hr]
+      | pedTVMismatch =>
+        simp only
+        conv => rhs; rw [hsplit]
+        rw [runFrom_append_fail env _ _ _ (by rw [hr]; decide), hr]
+      | escape =>
+        simp only
+        conv => rhs; rw [hsplit]
+        rw [runFrom_append_fail env _ _ _ (by rw [hr]; decide), hr]
+
+
+/-- **C07, nested calls do not disturb (a call with a parameter)**: the store of the call is resolved by its first parameter
+    check and kept; whatever calls the body makes — on the same instance, on other instances, plain functions, to any depth —
+    the call ends exactly as the same call with an empty body.  Every store kind, unparametrised instances included. -/
+theorem nested_calls_do_not_disturb (env : Env) (c : Call) (n : Nat) (body : List Tree) (s : Stores)
+    (hn : (c.checks.take n).isEmpty = false) :
+    (runTree env (.node c n body) s).out = (runCall env c s).1 := by
+  rw [runTree_out, hn]; rfl
+
+/-- calls whose outcome the property makes independent of every store: plain functions / static / class methods / directly
+    decorated methods, methods of non-generic `@pedantic_class` instances, every method of an instance created as `Cls[X]()` -/
+def Indep (c : Call) : Prop := c.kind = .perCall ∨ c.kind = .resetEachAccess ∨ ParamInstanceCall c
+
+theorem indep_alone (env : Env) (c : Call) (hc : Indep c) (s s' : Stores) : (runCall env c s).1 = (runCall env c s').1 := by
+  rcases hc with h | h | h
+  · exact plain_call_alone env c h s s'
+  · exact nonGeneric_call_alone env c h s s'
+  · exact call_alone env c h s s'
+
+/-- **C07, nested calls do not disturb (any signature, also without parameters)**: for a plain function, a method of a
+    non-generic class or of an instance `Cls[X]()`, the outcome of a call is the outcome of the same call made ALONE — empty
+    body, fresh stores — whatever finite tree of calls its body makes and whatever happened before -/
+theorem nested_calls_do_not_disturb_alone (env : Env) (c : Call) (hc : Indep c) (n : Nat) (body : List Tree) (s s' : Stores) :
+    (runTree env (.node c n body) s).out = (runCall env c s').1 := by
+  rw [runTree_out]; exact indep_alone env c hc _ _
+
+example : Indep ⟨0, 0, .genericInstance [0] [(0, .cls 2)], false, [(.tv 1, .inst 2), (.tv 1, .inst 3)]⟩ :=
+  Or.inr (Or.inr ⟨_, _, rfl, by decide⟩)
+
+/-! ### a call without nested calls is a call of the history model -/
+
+theorem Table.put_put (s : Table) (k : Nat) (a b : TVMap) : (s.put k a).put k b = s.put k b := by
+  induction s with
+  | nil => simp [Table.put]
+  | cons kv r ih =>
+    obtain ⟨k', x⟩ := kv
+    simp only [Table.put]
+    by_cases h : k' = k
+    · subst h; simp [Table.put]
+    · have : (k' == k) = false := by simp [h]
+      simp [this, Table.put, ih]
+
+theorem runCall_st_of_scan (env : Env) (c : Call) (s : Stores) (h : isScanFail c = true) : (runCall env c s).2 = s := by
+  unfold runCall
+  unfold isScanFail at h
+  split
+  · rfl
+  · rename_i hne
+    split at h
+    · rename_i h1 h2
+      exact absurd h2 (fun h2 => hne _ _ h1 h2)
+    · simp at h
+
+theorem runCall_st_of_not_scan (env : Env) (c : Call) (s : Stores) (h : isScanFail c = false) : (runCall env c s).2 =
+    expose c s [] (runFrom env c.checks (accessMap c.kind [] (s.attrs.get (attrKey c)))).2 := by
+  unfold runCall
+  unfold isScanFail at h
+  split
+  · rename_i h1 h2; rw [h1, h2] at h; simp at h
+  · simp only [perCallFreshMap, ↓reduceIte, expose, writeBack, runChecks, resolveOncePerCall]
+    by_cases hu : usesAttr c.kind = true
+    · simp only [hu, ↓reduceIte]
+    · simp only [hu, Bool.false_eq_true, ↓reduceIte]
+
+theorem expose_expose (c : Call) (s : Stores) (a b : TVMap) : expose c (expose c s [] a) [] b = expose c s [] b := by
+  simp only [expose, writeBack, perCallFreshMap, ↓reduceIte]
+  by_cases hu : usesAttr c.kind = true
+  · simp only [hu, ↓reduceIte, Table.put_put]
+  · simp only [hu, Bool.false_eq_true, ↓reduceIte]
+
+theorem runTree_leaf (env : Env) (c : Call) (n : Nat) (s : Stores) :
+    (runTree env (.node c n []) s).out = (runCall env c s).1 ∧ (runTree env (.node c n []) s).st = (runCall env c s).2 ∧
+    (runTree env (.node c n []) s).log = [] := by
+  refine ⟨?_, ?_, ?_⟩
+  · rw [runTree_out]; split <;> rfl
+  · unfold runTree
+    simp only [resolveOncePerCall, perCallFreshMap, ↓reduceIte, runBody]
+    by_cases hp : (c.checks.take n).isEmpty = true
+    · simp only [hp, ↓reduceIte]
+    · simp only [hp, Bool.false_eq_true, ↓reduceIte]
+      by_cases hs : isScanFail c = true
+      · simp only [hs, ↓reduceIte]
+        exact (runCall_st_of_scan env c s hs).symm
+      · have hs' : isScanFail c = false := by simpa using hs
+        simp only [hs', Bool.false_eq_true, ↓reduceIte]
+        have hsplit : c.checks = c.checks.take n ++ c.checks.drop n := (List.take_append_drop n c.checks).symm
+        have hcall := runCall_st_of_not_scan env c s hs'
+        rw [hcall]
+        generalize hm : accessMap c.kind [] (s.attrs.get (attrKey c)) = m0
+        cases hr : (runFrom env (c.checks.take n) m0).1 with
+        | ok =>
+          simp only [List.contains_nil, Bool.and_false, Bool.false_eq_true, ↓reduceIte]
+          conv => rhs; rw [hsplit]
+          rw [runFrom_append_ok env _ _ _ hr]
+          exact expose_expose c s _ _
+        | pedTypeCheck =>
+          simp only
+          conv => rhs; rw [hsplit]
+          rw [runFrom_append_fail env _ _ _ (by rw [hr]; decide)]
+        | pedTVMismatch =>
+          simp only
+          conv => rhs; rw [hsplit]
+          rw [runFrom_append_fail env _ _ _ (by rw [hr]; decide)]
+        | escape =>
+          simp only
+          conv => rhs; rw [hsplit]
+          rw [runFrom_append_fail env _ _ _ (by rw [hr]; decide)]
+  · unfold runTree
+    simp only [resolveOncePerCall, ↓reduceIte, runBody, skipped, Tree.countL, List.replicate]
+    split
+    · rfl
+    · split
+      · rfl
+      · split <;> rfl
+
+/-- the call with an empty body -/
+def leaf (c : Call) : Tree := .node c (c.checks.length - 1) []
+
+/-- **the tree model extends the history model**: a history of calls with empty bodies runs exactly as `runHistory` -/
+theorem runForest_leaves (env : Env) : ∀ (h : List Call) (s : Stores),
+    runForest env (h.map leaf) s = (runHistory env h s).map (fun o => (o, [])) := by
+  intro h
+  induction h with
+  | nil => intros; rfl
+  | cons c rest ih =>
+    intro s
+    obtain ⟨h1, h2, h3⟩ := runTree_leaf env c (c.checks.length - 1) s
+    simp only [List.map_cons, runForest, runHistory, leaf] at *
+    rw [h1, h2, h3, ih]
+
+
+/-! ### every call of a call tree ends as the same call made alone -/
+
+mutual
+/-- the calls of a tree, pre-order -/
+def Tree.calls : Tree → List Call
+  | .node c _ body => c :: Tree.callsL body
+def Tree.callsL : List Tree → List Call
+  | [] => []
+  | t :: ts => t.calls ++ Tree.callsL ts
+end
+
+/-- does the body of the call run (do the parameter checks pass) — judged with the call made alone, from empty stores -/
+def bodyRuns (env : Env) (c : Call) (n : Nat) : Bool :=
+  (c.checks.take n).isEmpty || (!isScanFail c && (runFrom env (c.checks.take n) (accessMap c.kind [] [])).1 == .ok)
+
+mutual
+/-- the journal of a tree when every call in it is replaced by the same call made ALONE (empty body, fresh stores) -/
+def aloneBelow (env : Env) : Tree → List (Option Out)
+  | .node c n body => if bodyRuns env c n then aloneBody env body else skipped body
+def aloneBody (env : Env) : List Tree → List (Option Out)
+  | [] => []
+  | t :: ts => some (runCall env t.call Stores.empty).1 :: (aloneBelow env t ++ aloneBody env ts)
+end
+
+/-- the parameter checks of an independent call do not look at what is on the instance -/
+theorem pre_alone (env : Env) (c : Call) (hc : Indep c) (n : Nat) (a₁ a₂ : TVMap) :
+    (runFrom env (c.checks.take n) (accessMap c.kind [] a₁)).1 = (runFrom env (c.checks.take n) (accessMap c.kind [] a₂)).1 := by
+  rcases hc with h | h | ⟨params, g, hk, hp⟩
+  · rw [h]; rfl
+  · rw [h]; simp [accessMap, instanceAccessorSwitch, nonGenericFresh]
+  · rw [hk]
+    simp only [accessMap, instanceAccessorSwitch, ↓reduceIte]
+    refine runFrom_frame env (Spec.callTVs c) _ _ _ ?_ ?_
+    · intro ch hch
+      apply tvsIn_of_tvsOf
+      intro t ht
+      simp only [Spec.callTVs, List.mem_flatMap]
+      exact ⟨ch, List.mem_of_mem_take hch, ht⟩
+    · intro t _
+      exact rebuild_ext params g _ _ hp t
+
+/-- **C07 over arbitrary finite call trees**: if every call of the tree is a plain function / a method of a non-generic class /
+    a method of an instance `Cls[X]()`, then — from any stores, with any nesting depth and any mix of same-instance,
+    other-instance and plain calls — every call of the tree (the outermost one and every journalled nested one) ends as the
+    same call made alone, and a body runs iff the parameter checks of its call pass when made alone -/
+theorem tree_journal_alone (env : Env) :
+    (∀ t : Tree, (∀ c ∈ t.calls, Indep c) → ∀ s : Stores,
+      (runTree env t s).out = (runCall env t.call Stores.empty).1 ∧ (runTree env t s).log = aloneBelow env t) ∧
+    (∀ ts : List Tree, (∀ c ∈ Tree.callsL ts, Indep c) → ∀ s : Stores, (runBody env ts s).log = aloneBody env ts) := by
+  have node : ∀ c n body, ((∀ c ∈ Tree.callsL body, Indep c) → ∀ s : Stores, (runBody env body s).log = aloneBody env body) →
+      ((∀ c' ∈ (Tree.node c n body).calls, Indep c') → ∀ s : Stores,
+        (runTree env (.node c n body) s).out = (runCall env (Tree.node c n body).call Stores.empty).1 ∧
+        (runTree env (.node c n body) s).log = aloneBelow env (.node c n body)) := by
+    intro c n body ih hall s
+    have hc : Indep c := hall c (by simp [Tree.calls])
+    have hb : ∀ c' ∈ Tree.callsL body, Indep c' := fun c' h => hall c' (by simp [Tree.calls, h])
+    refine ⟨nested_calls_do_not_disturb_alone env c hc n body s Stores.empty, ?_⟩
+    unfold runTree
+    simp only [resolveOncePerCall, perCallFreshMap, ↓reduceIte, aloneBelow, bodyRuns]
+    by_cases hp : (c.checks.take n).isEmpty = true
+    · simp only [hp, ↓reduceIte, Bool.true_or]
+      exact ih hb s
+    · simp only [hp, Bool.false_eq_true, ↓reduceIte, Bool.false_or]
+      by_cases hs : isScanFail c = true
+      · simp only [hs, ↓reduceIte, Bool.not_true, Bool.false_and, Bool.false_eq_true]
+      · have hs' : isScanFail c = false := by simpa using hs
+        simp only [hs', Bool.false_eq_true, ↓reduceIte, Bool.not_false, Bool.true_and]
+        rw [pre_alone env c hc n (s.attrs.get (attrKey c)) []]
+        cases hr : (runFrom env (c.checks.take n) (accessMap c.kind [] [])).1 with
+        | ok => simp only [beq_self_eq_true, ↓reduceIte]; exact ih hb _
+        | pedTypeCheck => simp only; rfl
+        | pedTVMismatch => simp only; rfl
+        | escape => simp only; rfl
+  have nil : (∀ c ∈ Tree.callsL [], Indep c) → ∀ s : Stores, (runBody env [] s).log = aloneBody env [] := by
+    intro _ s; rfl
+  have cons : ∀ t ts,
+      ((∀ c ∈ t.calls, Indep c) → ∀ s : Stores,
+        (runTree env t s).out = (runCall env t.call Stores.empty).1 ∧ (runTree env t s).log = aloneBelow env t) →
+      ((∀ c ∈ Tree.callsL ts, Indep c) → ∀ s : Stores, (runBody env ts s).log = aloneBody env ts) →
+      ((∀ c ∈ Tree.callsL (t :: ts), Indep c) → ∀ s : Stores, (runBody env (t :: ts) s).log = aloneBody env (t :: ts)) := by
+    intro t ts iht ihts hall s
+    have h1 := iht (fun c h => hall c (by simp [Tree.callsL, h])) s
+    have h2 := ihts (fun c h => hall c (by simp [Tree.callsL, h])) (runTree env t s).st
+    simp only [runBody, aloneBody]
+    rw [h1.1, h1.2, h2]
+    rfl
+  exact ⟨Tree.ind node nil cons, Tree.indL node nil cons⟩
+
+/-! ### the property on call trees, against the stateless specification -/
+
+/-- journal entry by journal entry: the lists have the same length and every call that was made ended as its verdict demands -/
+def AllDemandOpt : List Spec.Verdict → List (Option Out) → Prop
+  | [], [] => True
+  | vd :: vs, o :: os => (∀ x, o = some x → Demands vd x) ∧ AllDemandOpt vs os
+  | _, _ => False
+
+theorem allDemandOpt_append : ∀ (a : List Spec.Verdict) (x : List (Option Out)) (b : List Spec.Verdict) (y : List (Option Out)),
+    AllDemandOpt a x → AllDemandOpt b y → AllDemandOpt (a ++ b) (x ++ y) := by
+  intro a
+  induction a with
+  | nil => intro x b y h1 h2; cases x with
+    | nil => exact h2
+    | cons _ _ => exact absurd h1 (by simp [AllDemandOpt])
+  | cons vd vs ih => intro x b y h1 h2; cases x with
+    | nil => exact absurd h1 (by simp [AllDemandOpt])
+    | cons o os => exact ⟨h1.1, ih os b y h1.2 h2⟩
+
+theorem allDemandOpt_skipped (env : Env) :
+    (∀ t : Tree, AllDemandOpt (Spec.specCall env t.call :: Spec.specBelow env t) (List.replicate t.count none)) ∧
+    (∀ ts : List Tree, AllDemandOpt (Spec.specBody env ts) (List.replicate (Tree.countL ts) none)) := by
+  have node : ∀ c n body, AllDemandOpt (Spec.specBody env body) (List.replicate (Tree.countL body) none) →
+      AllDemandOpt (Spec.specCall env (Tree.node c n body).call :: Spec.specBelow env (.node c n body))
+        (List.replicate (Tree.node c n body).count none) := by
+    intro c n body ih
+    simp only [Tree.count, Spec.specBelow, Nat.add_comm 1, List.replicate_succ]
+    exact ⟨fun x h => by simp at h, ih⟩
+  have nil : AllDemandOpt (Spec.specBody env []) (List.replicate (Tree.countL []) none) := by
+    simp [Spec.specBody, Tree.countL, AllDemandOpt]
+  have cons : ∀ t ts, AllDemandOpt (Spec.specCall env t.call :: Spec.specBelow env t) (List.replicate t.count none) →
+      AllDemandOpt (Spec.specBody env ts) (List.replicate (Tree.countL ts) none) →
+      AllDemandOpt (Spec.specBody env (t :: ts)) (List.replicate (Tree.countL (t :: ts)) none) := by
+    intro t ts h1 h2
+    simp only [Spec.specBody, Tree.countL]
+    rw [← List.replicate_append_replicate]
+    exact allDemandOpt_append (_ :: _) _ _ _ h1 h2
+  exact ⟨Tree.ind node nil cons, Tree.indL node nil cons⟩
+
+/-- **the property on the model over arbitrary finite call trees, outside the recorded region**: whatever the nesting — any
+    depth, same instance / other instances / plain functions in any mix, from any stores — the outermost call and every nested
+    call that is made end as the stateless specification of THAT call demands (class parameters replaced by `X`); the
+    specification of a call looks neither at the calls its body makes nor at the call it was made from -/
+theorem C07_tree_partial (env : Env) (wf : EnvWF env) :
+    (∀ t : Tree, (∀ c ∈ t.calls, InVocab env c ∧ Guard env c) → ∀ s : Stores,
+      Demands (Spec.specCall env t.call) (runTree env t s).out ∧ AllDemandOpt (Spec.specBelow env t) (runTree env t s).log) ∧
+    (∀ ts : List Tree, (∀ c ∈ Tree.callsL ts, InVocab env c ∧ Guard env c) → ∀ s : Stores,
+      AllDemandOpt (Spec.specBody env ts) (runBody env ts s).log) := by
+  have node : ∀ c n body,
+      ((∀ c ∈ Tree.callsL body, InVocab env c ∧ Guard env c) → ∀ s : Stores, AllDemandOpt (Spec.specBody env body) (runBody env body s).log) →
+      ((∀ c' ∈ (Tree.node c n body).calls, InVocab env c' ∧ Guard env c') → ∀ s : Stores,
+        Demands (Spec.specCall env (Tree.node c n body).call) (runTree env (.node c n body) s).out ∧
+        AllDemandOpt (Spec.specBelow env (.node c n body)) (runTree env (.node c n body) s).log) := by
+    intro c n body ih hall s
+    have hc := hall c (by simp [Tree.calls])
+    have hb : ∀ c' ∈ Tree.callsL body, InVocab env c' ∧ Guard env c' := fun c' h => hall c' (by simp [Tree.calls, h])
+    refine ⟨?_, ?_⟩
+    · rw [runTree_out]; exact call_demands env wf c hc.1 hc.2 _
+    · have hsk : AllDemandOpt (Spec.specBody env body) (skipped body) := (allDemandOpt_skipped env).2 body
+      unfold runTree
+      simp only [resolveOncePerCall, ↓reduceIte, Spec.specBelow]
+      split
+      · exact ih hb _
+      · split
+        · exact hsk
+        · split
+          · exact ih hb _
+          · exact hsk
+  have nil : (∀ c ∈ Tree.callsL [], InVocab env c ∧ Guard env c) → ∀ s : Stores, AllDemandOpt (Spec.specBody env []) (runBody env [] s).log := by
+    intro _ s; simp [Spec.specBody, runBody, AllDemandOpt]
+  have cons : ∀ t ts,
+      ((∀ c ∈ t.calls, InVocab env c ∧ Guard env c) → ∀ s : Stores,
+        Demands (Spec.specCall env t.call) (runTree env t s).out ∧ AllDemandOpt (Spec.specBelow env t) (runTree env t s).log) →
+      ((∀ c ∈ Tree.callsL ts, InVocab env c ∧ Guard env c) → ∀ s : Stores, AllDemandOpt (Spec.specBody env ts) (runBody env ts s).log) →
+      ((∀ c ∈ Tree.callsL (t :: ts), InVocab env c ∧ Guard env c) → ∀ s : Stores,
+        AllDemandOpt (Spec.specBody env (t :: ts)) (runBody env (t :: ts) s).log) := by
+    intro t ts iht ihts hall s
+    have h1 := iht (fun c h => hall c (by simp [Tree.callsL, h])) s
+    have h2 := ihts (fun c h => hall c (by simp [Tree.callsL, h])) (runTree env t s).st
+    simp only [runBody, Spec.specBody]
+    exact ⟨fun x hx => by cases hx; exact h1.1, allDemandOpt_append _ _ _ _ h1.2 h2⟩
+  exact ⟨Tree.ind node nil cons, Tree.indL node nil cons⟩
+
+/-- ... and for histories of call trees over any number of instances -/
+def ForestDemand (env : Env) : List Tree → List (Out × List (Option Out)) → Prop
+  | [], [] => True
+  | t :: ts, r :: rs => Demands (Spec.specCall env t.call) r.1 ∧ AllDemandOpt (Spec.specBelow env t) r.2 ∧ ForestDemand env ts rs
+  | _, _ => False
+
+theorem C07_forest_partial (env : Env) (wf : EnvWF env) : ∀ (ts : List Tree), (∀ t ∈ ts, ∀ c ∈ t.calls, InVocab env c ∧ Guard env c) →
+    ∀ s : Stores, ForestDemand env ts (runForest env ts s) := by
+  intro ts
+  induction ts with
+  | nil => intros; trivial
+  | cons t ts ih =>
+    intro hall s
+    have h := (C07_tree_partial env wf).1 t (hall t (by simp)) s
+    exact ⟨h.1, h.2, ih (fun t' ht' => hall t' (by simp [ht'])) _⟩
+
+
+/-! ### concrete call trees (the class table of the harness) -/
+
+/-- decidable form of `Indep` -/
+def indepB (c : Call) : Bool :=
+  match c.kind with
+  | .perCall => true
+  | .resetEachAccess => true
+  | .genericInstance params g => params.all (fun p => (keys g).contains p)
+
+theorem indep_of_indepB (c : Call) (h : indepB c = true) : Indep c := by
+  unfold indepB at h
+  cases hk : c.kind with
+  | perCall => exact Or.inl hk
+  | resetEachAccess => exact Or.inr (Or.inl hk)
+  | genericInstance params g =>
+    rw [hk] at h
+    refine Or.inr (Or.inr ⟨params, g, hk, ?_⟩)
+    intro p hp
+    have := List.all_eq_true.mp h p hp
+    simpa using this
+
+/-- a method of `Box[int]()` (instance 1) -/
+private def onBox1 (checks : List (A × Val)) : Call := ⟨1, 0, .genericInstance [0] [(0, .cls 2)], false, checks⟩
+
+/-- `echo(self, value: S) -> S` of a non-generic `@pedantic_class` class is called with an int and returns a str; before it
+    returns, its body calls `note(msg: str)` on the same instance, and `convert(self, value: S, fallback: S) -> S` on a
+    `Box[int]()`, whose body in turn calls a plain function and `remember(item: S)` on that box -/
+def demoTree : Tree :=
+  .node (onNG [(S, .inst 2), (.cls 0, .inst 3), (S, .inst 3)]) 2
+    [leaf (onNG [(.cls 3, .inst 3), retNone]),
+     .node (onBox1 [(S, .inst 3), (S, .inst 3), (.cls 0, .inst 3), (S, .inst 3)]) 3
+       [leaf (plain [(S, .inst 5), retNone]), leaf (onBox1 [(S, .inst 2), (T, .inst 2), retNone])]]
+
+/-- the mismatch of the OUTER call is reported although four calls ran in between, two of them on the same instance; each of
+    those is accepted although they bind `S` to other classes than their callers -/
+example : (runTree envX demoTree Stores.empty).out = .pedTVMismatch ∧
+    (runTree envX demoTree Stores.empty).log = [some .ok, some .ok, some .ok, some .ok] := by decide
+
+example : ∀ c ∈ demoTree.calls, Indep c := fun c hc => indep_of_indepB c (by revert c hc; decide)
+
+/-- in the reverse direction: the nested call binds `S` to str, the outer call (int in, int out) is still accepted -/
+example : (runTree envX (.node (onNG [(S, .inst 2), (.cls 0, .inst 2), (S, .inst 2)]) 2 [leaf (onNG [(S, .inst 3), retNone])]) Stores.empty).out = .ok := by
+  decide
+
+/-- a body that does not run: the parameter check of the nested `convert` fails, its two calls are never made -/
+example : (runTree envX (.node (onNG [(S, .inst 2), retNone]) 1
+      [.node (onBox1 [(T, .inst 3), retNone]) 1 [leaf (plain [(S, .inst 5), retNone]), leaf (plain [(S, .inst 5), retNone])]]) Stores.empty).log
+    = [some .pedTVMismatch, none, none] := by decide
+
+private theorem vocab_Box1 {l : List (A × Val)} (h : l.all (fun ch => frag envX ch.1) = true) : InVocab envX (onBox1 l) := by
+  refine ⟨frag_list h, ?_⟩
+  intro p g hg
+  simp only [onBox1, StoreKind.genericInstance.injEq] at hg
+  obtain ⟨rfl, rfl⟩ := hg
+  exact ⟨goodBoxInt, by decide, fun _ => by decide⟩
+
+/-- the tree meets the hypotheses of `C07_tree_partial` (every call in the vocabulary, none in the recorded region) -/
+example : ∀ c ∈ demoTree.calls, InVocab envX c ∧ Guard envX c := by
+  intro c hc
+  simp only [demoTree, leaf, Tree.calls, Tree.callsL, List.append_nil, List.cons_append, List.nil_append, List.mem_cons, List.not_mem_nil, or_false] at hc
+  rcases hc with rfl | rfl | rfl | rfl | rfl
+  · exact ⟨vocab_NG (by decide), by decide⟩
+  · exact ⟨vocab_NG (by decide), by decide⟩
+  · exact ⟨vocab_Box1 (by decide), by decide⟩
+  · exact ⟨vocab_plain (by decide), by decide⟩
+  · exact ⟨vocab_Box1 (by decide), by decide⟩
+
+example : Spec.specCall envX demoTree.call = .tvm ∧ Spec.specBelow envX demoTree = [.accept, .accept, .accept, .accept] := by decide
 
 end PedVerif.TypeVars
